@@ -181,6 +181,15 @@ func productSearch(c *ev.Ctx, trailing bool, maxDepth int) {
 		a := libCheck(string(m.hist), trailing) == nil
 		b := libCheck(string(m.into.hist), trailing) == nil
 		ra, rb := refVerdict(string(m.hist), trailing), refVerdict(string(m.into.hist), trailing)
+		if a != b && ra == rb && ra != jsonpda.Unspecified {
+			// The two histories lead to one product state but the PUBLIC verdicts
+			// differ while the reference agrees with itself: one of the two
+			// contradicts the reference - a defect of the library (its verdict
+			// depends on more than the scanner state), reported as such.
+			compare(c, string(m.hist), trailing, "history merged into a product state")
+			compare(c, string(m.into.hist), trailing, "representative of a product state")
+			continue
+		}
 		if a != b || ra != rb {
 			panic(fmt.Sprintf("HARNESS: state key too coarse: %q and %q share key %q but verdicts differ (lib %v/%v ref %v/%v)", m.hist, m.into.hist, m.into.key, a, b, ra, rb))
 		}
